@@ -25,7 +25,9 @@ func VerifC03_NewSyncerKeepsPeerID() {
 	wire, err := h.Encode()
 	verif_Assume(err == nil)
 	rt := &vRT{fn: func(req *http.Request) (*http.Response, error) { return vResp(200, wire), nil }}
-	s := NewSync(cidlink.DefaultLinkSystem(), nil)
+	// asking libp2phttp to authenticate the server is only a request: over the
+	// plain-HTTP fallback nothing authenticates it, so the signer check must stay
+	s := NewSync(cidlink.DefaultLinkSystem(), nil, ClientAuthServerPeerID(verif_Bool("authServerPeerID")))
 	s.client.Transport = rt
 	addr, err := multiaddr.NewMultiaddr("/ip4/127.0.0.1/tcp/9/http")
 	verif_Assume(err == nil)
